@@ -22,34 +22,62 @@ RULE = ("a case = a sequence (history) of calls Q(n,k) / QQ(n,k) / number_of_con
         "exact bond-percolation expectation; non-trivial = at least one in-domain call with a non-zero result; "
         "distinct by the full call list")
 EXHAUSTIVE = {"quick": True, "thorough": True}
-EXPLANATION = ("bounded theorems (Q = QQ = brute force for n<=6 all k; Q = exponential-formula recurrence for n<=12; "
-               "clique identity tau<=6 heterogeneous H; cycle identity 3<=n<=10) and general theorems (connectedb_spec, "
-               "ncg_spec, table = recursion, checker soundness) in Props/C16.v; unbounded tau / n is partial (C16_full "
-               "kept visible). Correspondence exhaustive over (n,k) for Q n<=12, QQ n<=6, tau<=6, cycle n<=12, and all "
-               "4-vertex substrates x vertex subsets x k for the counter, plus seeded random substrates")
+EXPLANATION = ("the full statement of the property is a theorem: C16_holds : C16_full in Props/C16.v (growth round) - "
+               "clique_equation = exact bond-percolation expectation on K_tau for EVERY tau >= 2 with heterogeneous H "
+               "(C16_clique_identity_general), chordless_cycle_equation = the expectation on C_n for EVERY n >= 3 "
+               "(C16_cycle_identity_general), Q (recursion as written and memoised table) = QQ = number of connected labelled "
+               "graphs for ALL n, k (C16_Q_count_general, which needed Cayley's formula C16_Cayley_formula for the k = n-1 "
+               "shortcut), the counter on every substrate (C16_ncg_spec); all general, by induction, axiom free. Also general: "
+               "connectedb_spec, table = recursion, the exponential-formula recurrence cross = the count "
+               "(C16_cross_counts_connected_graphs), checker soundness for every n (C16_check_count_sound_all) and the model "
+               "passes the checker for every n (C16_Q_model_meets_check_general). The older bounded theorems (tau<=6, cycle "
+               "n<=10, Q=QQ=brute n<=6, Q=cross n<=12) are kept as independent checks. Correspondence exhaustive over (n,k) "
+               "for Q n<=12, QQ n<=6, tau<=6, cycle n<=12, and all 4-vertex substrates x vertex subsets x k for the counter, "
+               "plus seeded random substrates")
 ASSUMPTIONS = ["networkx Graph.copy / remove_node / remove_edge / edges / is_connected / complete_graph and "
                "itertools.combinations behave as modelled (their results are compared with the model on every case)",
                "math.factorial, int pow and float arithmetic on the small integral floats of omega() are exact"]
 TRUSTED = ["exact polynomial class harness/props/poly16.py (+ - * pow over Fractions; floats absorbed exactly) "
            "substituted for phi / u / H when running the real equation code"]
-TECHNIQUE = ("Coq proof by reflection (Ring_polynom normal forms + ring_correct, vm_compute over a stated finite range) "
-             "and general proofs (connectivity decision, counting, memo table = recursion) + model/implementation "
+TECHNIQUE = ("Coq: general proofs by induction, no bound (connectivity decision; counting; memo table = recursion; cycle "
+             "identity via run-length recursions on edge masks; complement involution for QQ; regrouping of the clique "
+             "expectation by the root's component + relabelling invariance; exponential-formula recurrence = count via the "
+             "counting identity; Cayley's formula via the rooted-forest recurrence; the recursion Q = count by strong "
+             "induction) + older reflection results kept (vm_compute over a stated finite range) + model/implementation "
              "correspondence on exact polynomial arguments")
 LEVEL_TEXT = (
-    "coq/Props/C16.v. GENERAL: connectedb decides path-connectivity (connectedb_spec); the counter equals the "
-    "cardinality of {k-subsets T of the induced edges : induced graph minus T connected} (ncg_spec); the brute-force "
-    "count is the cardinality of the set of connected labelled graphs with n vertices and k edges (brute_spec); the "
-    "memoised Q table equals the recursion as written with factorial binomials for all n, k (Q_table_is_recursion); "
-    "the verified checker c16_check is sound. BOUNDED (vm_compute, bound in the statement): Q n k = QQ n k = brute "
-    "force for 1<=n<=6 and all k (thorough file: n=7); Q = exponential-formula recurrence for n<=12, all k; "
-    "clique_equation = exact bond-percolation expectation on K_tau as polynomials for 2<=tau<=6 with heterogeneous "
-    "H; chordless_cycle_equation = the expectation on C_n for 3<=n<=10 (all u equal, as the code's signature "
-    "demands). PARTIAL: unbounded tau / n / n (C16_full stays visible in the file). The model is tied to the code by "
-    "exact comparison on every run (polynomials coefficient-wise), and c16_check judges the implementation's own "
-    "outputs against the specification.")
-LEVEL_NOTE = ("Trusted: Coq kernel + vm_compute; extraction (ExtrOcamlBasic) + OCaml driver + Python harness incl. the "
-              "exact polynomial class for the correspondence; networkx primitives as modelled. For 8<=n the checker "
-              "judges Q against the independent exponential-formula recurrence (a consistency check, not a count). "
+    "coq/Props/C16.v. FULL, GENERAL (all inputs, no bound): C16_holds : C16_full, i.e. (1) clique_equation evaluated on "
+    "rationals = exact bond-percolation expectation on K_tau seen from vertex 0, for EVERY tau >= 2, every rational phi, "
+    "every heterogeneous list of tau-1 neighbour values (clique_identity_general); (2) chordless_cycle_equation = the "
+    "expectation on C_n for EVERY n >= 3, all rational u, phi (cycle_identity_general); (3) the recursion Q as written "
+    "(Qcode), its memoised evaluation (Qv) and the brute-force QQ all equal brute n k = the cardinality of the set of "
+    "connected labelled graphs with n vertices and k edges, for ALL n >= 1 and 0 <= k <= n(n-1)/2 (Q_count_general, "
+    "brute_spec); (4) number_of_connected_graphs returns the cardinality of {k-subsets T of the induced edges : induced "
+    "graph minus T connected} on every substrate (ncg_spec). Ingredients, each a theorem of its own: connectedb decides "
+    "path-connectivity (connectedb_spec); memo table = recursion with factorial binomials (Q_table_is_recursion); QQ = "
+    "brute by the complement involution (QQ_eq_brute_general); omega(tau,kappa) = (kappa+1)(tau-kappa-1) = number of "
+    "interface edges (omega_closed_form, interface_edge_count); the root's component is C iff no interface edge is kept "
+    "and the inside is connected (component_characterisation); counts are invariant under injective relabelling; the "
+    "exact clique expectation regroups into sum_kappa [sum_e brute(kappa+1,e) phi^e (1-phi)^(C(kappa+1,2)-e)] "
+    "(1-phi)^omega e_kappa(H) (exact_clique_regrouped); the counting identity C(s_n,k) = sum_kappa C(n-1,kappa) sum_i "
+    "brute(kappa+1,i) C(s_{n-kappa-1},k-i) (counting_identity), hence the exponential-formula recurrence cross n k = "
+    "brute n k for all n, k (cross_counts_connected_graphs); a connected graph on n vertices has >= n-1 edges "
+    "(connected_needs_n_minus_1_edges); the number of rooted forests |V| N(V,R) = |R| |V|^(|V|-|R|) (rooted_forest_count) "
+    "and CAYLEY'S FORMULA brute n (n-1) = n^(n-2) (Cayley_formula) for the k = n-1 shortcut of Q. Checker: c16_check is "
+    "sound, and for counts it accepts only the true count for every n (check_count_sound_all, check_row_sound_all); the "
+    "model's Q / QQ / counter outputs pass it for every input (Q_model_meets_check_general, ncg_model_meets_check). "
+    "BOUNDED results of the first round are kept as independent checks (reflection, bound in the name): Q = QQ = brute by "
+    "direct enumeration n<=6 (thorough 7), Q = cross n<=12 (thorough 20), clique identity tau<=6 by polynomial normal "
+    "forms, cycle n<=10 (thorough 14), model polynomials pass check_clique / check_cycle for tau<=6 / n<=10. The model is "
+    "tied to the code by exact comparison on every run (polynomials coefficient-wise), and c16_check judges the "
+    "implementation's own outputs against the specification.")
+LEVEL_NOTE = ("Trusted: Coq kernel (+ vm_compute for the older bounded theorems and the non-vacuity examples only - none of the "
+              "general theorems uses reflection); extraction (ExtrOcamlBasic) + OCaml driver + Python harness incl. the "
+              "exact polynomial class for the correspondence; networkx primitives as modelled. The cycle equation is "
+              "stated for one u shared by all neighbours (the code's signature). For 8<=n the checker judges Q against "
+              "the exponential-formula recurrence `cross`, which is PROVED equal to the number of connected labelled graphs "
+              "for every n, k. Not general (and not needed for C16_full): 'the model polynomial passes check_clique / "
+              "check_cycle' is proved for tau<=6 / n<=10 only (it is a statement about Ring_polynom normal forms). "
               "No axioms (Print Assumptions: closed under the global context).")
 
 IMPL_TIMEOUT = 120.0
